@@ -201,9 +201,9 @@ static void session(vh::Rng& r, int integ, bool optionClass = false) {
         // guaranteed share: the options that change WHICH states get projected, combined with witness-triggered events that must
         // be localised inside a step, loose accuracy and a tight constraint tolerance
         S.projInterp = 0;
-        S.acc = std::pow(10.0, -r.range(2.0, 3.2));
-        S.ctol = std::pow(10.0, -r.range(6.0, 8.5));
-        S.wit.clear(); const int k = 2 + r.below(3);
+        S.acc = std::pow(10.0, -r.range(2.0, 2.8));
+        S.ctol = std::pow(10.0, -r.range(7.0, 9.0));
+        S.wit.clear(); const int k = 4 + r.below(4);
         for (int i = 0; i < k; ++i) S.wit.push_back(S.tEnd * (i + r.range(0.2, 0.9)) / k);
         S.projEvery = r.below(2); S.infNorm = r.below(3) == 0; S.forceNewton = r.below(3) == 0; S.allowInterp = 1;
         S.fixedStepBlock = true;
